@@ -31,7 +31,8 @@ OUT = tgrpc2.OUT
 MODULE = "OptunaVerif.Props.C01GrpcGen"
 # the theorems of Props/C01Grpc.lean restated for the generated bodies (imports both; MODULE itself does not import Props/C01Grpc)
 SPEC_MODULE = "OptunaVerif.Props.C01GrpcGenSpec"
-MODULES = [MODULE, SPEC_MODULE]
+COMPOSE_MODULE = "OptunaVerif.Props.C01GrpcCompose"  # the proxy over ANY refining backend; instance: generated in-memory methods
+MODULES = [MODULE, SPEC_MODULE, COMPOSE_MODULE]
 DRIVER = "protogen"
 
 _pending: list[dict[str, Any]] = []
